@@ -59,6 +59,7 @@ func checkC01(cx *Ctx, r *Report) {
 		{"createSignature", matchFnKey(w, "provider.createSignature")},
 	}
 	lrScope := w.scopeOf(lr)
+	okInside := map[ssa.CallInstruction]bool{}
 	var gateErrs []ssa.Value
 	for _, g := range gated {
 		cs := w.callsTo(lrScope, g.match)
@@ -68,6 +69,8 @@ func checkC01(cx *Ctx, r *Report) {
 			// unexported, never used as a value and called from one place - the effect stands for that call, and the
 			// atoms holding at the call hold inside the helper
 			if lifted := cx.liftToCaller(c, lr); lifted != nil && lifted != c && doneAtom(fx.AtomsAt(c)) {
+				// (Done() may have been tested inside that helper, on the request it was handed, or before its call)
+				okInside[lifted] = true
 				c = lifted
 			}
 			if c.Parent() == lr {
@@ -84,7 +87,7 @@ func checkC01(cx *Ctx, r *Report) {
 			continue
 		}
 		c := inLR[0]
-		r.Check(doneAtom(fx.AtomsAt(c)), "R-GUARD", "loginResponse:"+g.name, w.InstrPos(c), "dominated by authRequest.Done() == true", g.name+" can run for a request whose Done() was not checked or is false")
+		r.Check(doneAtom(fx.AtomsAt(c)) || okInside[c], "R-GUARD", "loginResponse:"+g.name, w.InstrPos(c), "dominated by authRequest.Done() == true", g.name+" can run for a request whose Done() was not checked or is false")
 		if call, ok := c.(*ssa.Call); ok {
 			if e, has, _ := errResult(call); has && e != nil {
 				gateErrs = append(gateErrs, e)
@@ -132,7 +135,30 @@ func checkC01(cx *Ctx, r *Report) {
 					bad = "the response returned on success is not the result of makeSuccessfulResponse in loginResponse (" + w.InstrPos(p.Ret) + ")"
 				}
 			default:
-				bad = "a return of loginResponse with an error value of unknown nil-ness at " + w.InstrPos(p.Ret)
+				// `return p.signedSuccessfulResponse(ctx, response, attrs)`: both results are those of one piece of
+				// loginResponse - its returns are judged instead, with what holds at its call
+				okTail := false
+				if ex0, is0 := resp.(*ssa.Extract); is0 && ex0.Index == 0 {
+					if ex1, is1 := errv.(*ssa.Extract); is1 && ex1.Index == 1 && ex1.Tuple == ex0.Tuple {
+						if hc, isC := ex0.Tuple.(*ssa.Call); isC {
+							if h := calleeOf(hc); h != nil {
+								for _, piece := range cx.privateHelpers(lr) {
+									if piece == h && h != lr {
+										if why := cx.loginTailReturns(h, doneAtom(p.Atoms) || doneAtom(fx.AtomsAt(hc)), doneAtom, gated0(gated)); why == "" {
+											okTail = true
+											nSucc++
+										} else {
+											bad = why
+										}
+									}
+								}
+							}
+						}
+					}
+				}
+				if !okTail && bad == "" {
+					bad = "a return of loginResponse with an error value of unknown nil-ness at " + w.InstrPos(p.Ret)
+				}
 			}
 		}
 		r.Check(bad == "" && nSucc > 0, "R-GUARD", "loginResponse:returns", w.FnPos(lr), fmt.Sprintf("%d success path(s): Done() passed, all gated calls returned nil; error returns carry no response", nSucc), bad)
@@ -453,4 +479,80 @@ func (cx *Ctx) expandErrorObjects(vf *VFlow, ls LabelSet) LabelSet {
 		}
 	}
 	return out
+}
+
+// gated0 flattens the matchers of the gated effects.
+func gated0(gs []struct {
+	name  string
+	match func(ssa.CallInstruction) bool
+}) []func(ssa.CallInstruction) bool {
+	var out []func(ssa.CallInstruction) bool
+	for _, g := range gs {
+		out = append(out, g.match)
+	}
+	return out
+}
+
+// loginTailReturns: the returns of a piece of loginResponse whose two results loginResponse hands on: an error return
+// carries no response; a success return passed Done() (at the call or inside), found the errors of the gated calls made
+// in the piece nil, and returns the result of makeSuccessfulResponse. "" if so.
+func (cx *Ctx) loginTailReturns(h *ssa.Function, doneAtCall bool, doneAtom func([]Atom) bool, gated []func(ssa.CallInstruction) bool) string {
+	w, fx := cx.W, cx.Fx
+	aps, ok := fx.atomPaths(h, 4096)
+	if !ok {
+		return "too many paths in " + w.FuncKey(h)
+	}
+	var gateErrs []ssa.Value
+	for _, c := range callsIn(h) {
+		for _, m := range gated {
+			if m(c) {
+				if call, isCall := c.(*ssa.Call); isCall {
+					if e, has, _ := errResult(call); has && e != nil {
+						gateErrs = append(gateErrs, e)
+					}
+				}
+			}
+		}
+	}
+	nSucc := 0
+	for i := range aps {
+		p := &aps[i]
+		resp, errv := fx.retVal(p, 0), fx.retVal(p, 1)
+		isNil, nonNil := fx.errNilness(p, errv)
+		switch {
+		case nonNil:
+			if !isNilConst(resp) {
+				return "an error return of " + w.FuncKey(h) + " also returns a response at " + w.InstrPos(p.Ret)
+			}
+		case isNil:
+			nSucc++
+			if !doneAtCall && !doneAtom(p.Atoms) {
+				return w.FuncKey(h) + " returns a response on a path that did not pass authRequest.Done() (" + w.InstrPos(p.Ret) + ")"
+			}
+			for _, e := range gateErrs {
+				okE := false
+				for _, cp := range p.Conds {
+					if x, tnn, isNT := nilTest(cp.Cond); isNT && cp.Pol != tnn {
+						for _, a := range fx.aliasesOf(e) {
+							if a == x {
+								okE = true
+							}
+						}
+					}
+				}
+				if !okE {
+					return w.FuncKey(h) + " returns a response although the error of " + fx.path(e) + " was not found nil on the path (" + w.InstrPos(p.Ret) + ")"
+				}
+			}
+			if c, isCall := resp.(*ssa.Call); !isCall || calleeOf(c) == nil || w.FuncKey(calleeOf(c)) != "provider.(*Response).makeSuccessfulResponse" {
+				return "the response returned on success is not the result of makeSuccessfulResponse (" + w.InstrPos(p.Ret) + ")"
+			}
+		default:
+			return "a return of " + w.FuncKey(h) + " with an error value of unknown nil-ness at " + w.InstrPos(p.Ret)
+		}
+	}
+	if nSucc == 0 {
+		return w.FuncKey(h) + " has no success return"
+	}
+	return ""
 }
